@@ -62,7 +62,7 @@ void vt_big(int64_t v) {
     fputs("]}", vt_out);
 }
 
-static uint64_t rs = 0x9E3779B97F4A7C15ULL;
+static __thread uint64_t rs = 0x9E3779B97F4A7C15ULL;   /* per thread: a driver thread seeds its own stream */
 void vt_seed(uint64_t s) { rs = s * 0x9E3779B97F4A7C15ULL + 0x1234567ULL; }
 uint64_t vt_rand(void) {
     uint64_t z = (rs += 0x9E3779B97F4A7C15ULL);
